@@ -2,7 +2,8 @@
    the lock nesting relation traced during the run (instance level, locks interned to N), and what was seen
    after the input stopped and the system settled.
    kinds:
-     1401 the traced nesting relation has a cycle (potential deadlock): acyclic E = false
+     1401 the traced nesting relation has a cycle (potential deadlock) that is not confined to one
+          single-goroutine role: acyclic (untag E) = false and order_ok singles rank E = false
      1402 final state: a node ledger disagrees with the allocations the node lists (C01 predicate)
      1403 a driver goroutine had not finished when the watchdog deadline passed
      1404 go-deadlock reported a potential deadlock (runs with detection enabled)
@@ -13,14 +14,16 @@
      1490 (correspondence) the harness' own cycle search and the Coq check disagree
    The predicates on the final state are the ones the sequential theorems C01/C03 are stated with
    (Core/Ledger.v); here they are validation only. *)
-From Coq Require Import List ZArith NArith Bool.
+From Coq Require Import List ZArith NArith Bool FMapPositive.
 From YK Require Import Base.Res Core.Obs Core.Ledger Conc.LockOrder.
 Import ListNotations.
 Open Scope N_scope.
 
 Record conc_case := mkConc {
-  cc_edges : list edge;        (* (held lock, requested lock) *)
-  cc_gocycle : list lock;      (* the cycle found by the harness, [] = none *)
+  cc_edges : list tedge;       (* (role of the goroutine, (held lock, requested lock)) *)
+  cc_singles : list role;      (* roles that are ONE goroutine in the service (scheduling loop, the three event handlers) *)
+  cc_rank : list (lock * nat); (* rank certificate from the harness (levels of the condensation), used when cyclic *)
+  cc_gocycle : list lock;      (* the offending cycle found by the harness, [] = none *)
   cc_observed : bool;          (* the final state could be observed (false: goroutines stayed blocked / run died) *)
   cc_final : ostate;
   cc_blocked : N;              (* driver goroutines still running at the watchdog deadline *)
@@ -28,7 +31,15 @@ Record conc_case := mkConc {
   cc_panics : N;               (* recovered panics + fatal errors *)
   cc_races : N }.              (* race detector reports *)
 
-Definition lock_order_ok (c : conc_case) : bool := acyclic (cc_edges c).
+Definition is_single (c : conc_case) (r : role) : bool := existsb (N.eqb r) (cc_singles c).
+Definition cert_table (l : list (lock * nat)) : PositiveMap.t nat :=
+  fold_left (fun m p => PositiveMap.add (key (fst p)) (snd p) m) l (PositiveMap.empty nat).
+Definition cert_rank (c : conc_case) : lock -> nat := rank_in (cert_table (cc_rank c)) 0.
+
+(* the plain check first (roles ignored); only when it fails the refined check with the harness' certificate *)
+Definition lock_order_ok (c : conc_case) : bool :=
+  if acyclic (untag (cc_edges c)) then true
+  else order_ok (is_single c) (cert_rank c) (cc_edges c).
 
 Definition final_state_kinds (s : ostate) : list N :=
   (if nodes_ledger_ok s then [] else [1402]) ++
@@ -42,7 +53,7 @@ Definition final_state_kinds (s : ostate) : list N :=
 Definition cycle_report_ok (c : conc_case) : bool :=
   match cc_gocycle c with
   | [] => lock_order_ok c
-  | cyc => is_cycle (cc_edges c) cyc
+  | cyc => is_cycle (untag (cc_edges c)) cyc && negb (lock_order_ok c)
   end.
 
 Definition conc_check_case (c : conc_case) : list N :=
